@@ -725,11 +725,20 @@ pub fn plan(w: &mut World, p: &Profile, prop: &str) -> Plan {
     // which stacks are in the property's scope: C13/C14 state their guarantees without take()
     // (C14 speaks of "every source item"; C13's clauses — exactly once per item of the stream, structured completion,
     // the concurrency limit — hold for a stream that ends in take(n) as well)
-    let no_take = matches!(prop, "C14");
+    // Two thirds of the C14 runs stay without take(); in the rest "every source item" reads "every item the
+    // stack admits" (the first min(n, len)), all other clauses of C14 apply unchanged.
+    let no_take = matches!(prop, "C14") && w.ch.draw("co.c14.notake", 3) != 0;
     let pool: Vec<usize> = if vec_source { VEC_STACKS.to_vec() } else { (0..STACKS.len()).collect() };
     let pool: Vec<usize> = pool.into_iter().filter(|&s| !(no_take && STACKS[s].1.contains(&Ad::Take))).collect();
     let stack = pool[w.ch.draw("co.stack", pool.len() as u32) as usize];
-    let vec_len = w.ch.draw("co.veclen", 7) as usize;
+    let mut vec_len = w.ch.draw("co.veclen", 7) as usize;
+    // one Vec source in five is long: 33..70 elements, or 129..330 (Vec::into_co_stream has its own iterator adapter;
+    // batch sizes of 32 / 64 / 128 and 8-bit counters in it are only visible beyond those lengths)
+    let mut vec_bulk = 0;
+    if vec_source && prop != "C02" && !crate::gen::small() && w.ch.draw("co.vec.big", 5) == 4 {
+        vec_len = if w.ch.draw("co.vec.big.kind", 2) == 0 { 33 + w.ch.draw("co.vec.big.n", 38) as usize } else { 129 + w.ch.draw("co.vec.big.n", 202) as usize };
+        vec_bulk = vec_len as u32;
+    }
     let mut leaves = Vec::new();
     let mut len_hint = vec_len;
     if !vec_source {
@@ -781,6 +790,14 @@ pub fn plan(w: &mut World, p: &Profile, prop: &str) -> Plan {
         leaves[0] = crate::gen::LeafPlan { script, term };
         for (i, a) in STACKS[stack].1.iter().enumerate() {
             // limits below the bulk size would only serialise the run
+            if *a == Ad::Limit && w.ch.draw("co.bulk.limit", 2) == 1 {
+                args[i] = 0;
+            }
+        }
+    }
+    if vec_bulk > 0 {
+        bulk = vec_bulk;
+        for (i, a) in STACKS[stack].1.iter().enumerate() {
             if *a == Ad::Limit && w.ch.draw("co.bulk.limit", 2) == 1 {
                 args[i] = 0;
             }
